@@ -297,7 +297,7 @@ SPECS = {
                         {"probe": "mixin_cooperative_init", "bind": False}]
                 + [{"probe": "default_model_custom_field", "field": f_, "start": s_, "coro": c_}
                    for f_ in ("phase", "state") for s_ in (False, True) for c_ in (False, True)]),
-    "C14": dict(knobs=K_C14, nontrivial=nontrivial_C14, n=(2000, 30000),
+    "C14": dict(knobs=K_C14, nontrivial=nontrivial_C14, n=(2000, 30000), post=post_C02,
                 probes=[{"probe": "event_name_callback", "rtc": True}, {"probe": "event_name_callback", "rtc": False},
                         {"probe": "state_named_like_callback", "values": True},
                         {"probe": "state_named_like_callback", "values": False}]),
